@@ -72,7 +72,7 @@ class PipelineProp(Prop):
         import json
 
         h = int(hashlib.sha1(json.dumps(case.get("pretext"), sort_keys=True).encode()).hexdigest()[:6], 16) % 10
-        return {0: "target_first", 1: "target_first", 2: "flipped_first", 3: "retag"}.get(h)
+        return {0: "target_first", 1: "target_first", 2: "flipped_first", 3: "retag", 4: "labelled_input", 5: "other_file_first"}.get(h)
 
     def run_impl(self, case):
         return P.run_pipeline({**case, "twice": True, "history": self.history_of(case)})
